@@ -34,6 +34,25 @@ def run(pid, tier):
     sub3 = scen[2::7]
     obs3 = pc.execute(rep, sub3, 'default', 'C06write0', env={'DRV_WRITE_ZERO': '1'})
     pc.validate(rep, 'C06', sub3, obs3, 'C06-write-returns-0', kindfn=kind)
+    # the counting view of the rule for responses of tens of thousands of items (TVMany): separators, terminator, flush
+    w = lib.workdir('C06m')
+    d = lib.run_driver(lib.build('drv_many', ['drv_many.c']), [w + '/many.ndjson'], timeout=300)
+    if d['rc'] != 0:
+        rep.violation('driver-failure', dict(what='drv_many', rc=d['rc'], stderr=d['stderr'].decode(errors='replace')[-2000:]))
+    else:
+        lines = open(w + '/many.ndjson').read().splitlines()
+        r = lib.tlc('TVMany', 'TVMany.cfg', workers=2, env={'TRACE': w + '/many.ndjson'}, timeout=300, xmx='2g')
+        rep.add_tlc('TVMany', r, 'counting view of the framing rule on messages whose units answer 1 .. 70000 items')
+        if r.distinct != len(lines) and not r.errors:
+            rep.broken.append('TVMany: %d states for %d lines' % (r.distinct, len(lines)))
+        for pr in r.prints:
+            if pr[0] == 'MISMATCH':
+                rep.violation('framing:counts:' + '+'.join(sorted(pr[2])), dict(source='many-items', diff=sorted(pr[2]), record=json.loads(lines[pr[1] - 1])))
+        rep.cov['traces_validated_against_impl'] += len(lines)
+        rep.cov['evaluations'] += len(lines)
+        rep.cov['driver_runs'].append(dict(mode='many items', **json.loads(d['stdout'].decode().strip().splitlines()[-1])))
+    import shutil
+    shutil.rmtree(w, ignore_errors=True)
     suite_traces.validate(rep, 'C06:')
     composition.validate(rep, 'C06', tier)   # random messages of a minimal instrument against Scpi.tla      # hook traces of the repository's own test programs
     nt = [s for s in scen if nontrivial(s)]
